@@ -505,9 +505,73 @@ theorem C04_done_asks_replacement (s : State) (p b : Peer) (hs : s.sync = some p
     rw [← hb2]
     exact ⟨rfl, List.mem_cons_self⟩
 
+/-! ### no peer message is lost on its way to the block handler -/
+
+/-- **Transport assumption of the progress theorems**, as a fact of the source
+(regenerated on every run): each of the four entry points that hand a peer
+message to the block handler - `QueueHeaders`, `QueueInv`, `NewPeer`, `DonePeer` -
+sends on `peerChan` inside a `select` whose only alternative is `<-b.quit`;
+there is no `default` arm, so the caller waits for room in the queue and the
+message is not dropped. -/
+def NoMessageLost : Prop :=
+  Neutrino.Gen.SyncPeer.peerChanSends =
+    [("DonePeer", true, false), ("NewPeer", true, false), ("QueueHeaders", true, false), ("QueueInv", true, false)]
+
+theorem C04_no_message_lost : NoMessageLost := by unfold NoMessageLost; decide
+
+/-- Why the assumption is needed: header sync is a request/response chain.  If the
+answer to the one outstanding request is lost (the request is gone, the tip did
+not move), then - however much time passes and whatever answers to requests that
+are NOT outstanding arrive - no request is ever issued again and the tip stays
+where it is; only a new external event (an announcement, a peer arriving or
+leaving) can restart the sync. -/
+def quietEv : Ev → Bool
+  | .age => true
+  | .headers _ _ => true
+  | _ => false
+
+theorem C04_lost_reply_stalls (s : State) (evs : List Ev) (hq : s.asked = [])
+    (hev : ∀ e ∈ evs, quietEv e = true) : (run s evs).tip = s.tip ∧ (run s evs).asked = [] := by
+  induction evs generalizing s with
+  | nil => exact ⟨rfl, hq⟩
+  | cons e es ih =>
+    have he := hev e List.mem_cons_self
+    have hes : ∀ x ∈ es, quietEv x = true := fun x hx => hev x (List.mem_cons_of_mem _ hx)
+    cases e with
+    | newPeer p => simp only [quietEv] at he; cases he
+    | donePeer p => simp only [quietEv] at he; cases he
+    | inv p h => simp only [quietEv] at he; cases he
+    | age =>
+      have := ih { s with fresh := false } hq hes
+      simp only [run, step]
+      exact this
+    | headers p h =>
+      have hn : ¬ (p ∈ s.asked ∧ s.tip < h) := by
+        intro hc; rw [hq] at hc; exact absurd hc.1 List.not_mem_nil
+      have hstep : step s (.headers p h) = s := by simp only [step, hn, ↓reduceIte]
+      simp only [run, hstep]
+      exact ih s hq hes
+
+/-- a concrete instance: the sync peer is ahead, its answer was dropped -/
+example : (run { tip := 36, fresh := true, peers := [⟨1, 38⟩], sync := some ⟨1, 38⟩, asked := [] }
+    [.headers ⟨1, 38⟩ 38, .age, .headers ⟨1, 38⟩ 38]).tip = 36 := by decide
+
 end Neutrino.Ask
 
 namespace Neutrino.Net
+
+/-- **C04 progress with the transport assumption made explicit.**  The fair
+schedule of `C04_progress` takes the honest peer's reply as an event the block
+handler gets to see.  That is an assumption about the path from the peer's read
+loop to the handler: `Neutrino.Ask.NoMessageLost` (a regenerated source fact,
+`C04_no_message_lost`); `Neutrino.Ask.C04_lost_reply_stalls` shows what happens
+without it. -/
+theorem C04_progress_no_loss (_hdeliver : Neutrino.Ask.NoMessageLost)
+    (w : World) (R : AcceptRule w) (s : State) (hi : Inv w s)
+    (hh : ∃ p ∈ s.peers, p.beh = .honest) (hw : w.work s.chain < w.work s.honestTip) :
+    FairRun w R s (sched w R s) ∧ (sched w R s).length ≤ rank s ∧
+    (run w R s (sched w R s)).chain = s.honestTip :=
+  C04_progress w R s hi hh hw
 
 /-- the two mutated handler steps break the invariant on the example state -/
 example : ¬ Inv exWorld (forgetThenDone exState exSilent) := by
